@@ -92,7 +92,7 @@ func c09Other(g *GenCfg, r *RNG, goType, field string) interface{} {
 
 func init() {
 	campaigns["C09"] = func(c *Ctx) {
-		c.Rule = "items generated type-directed over the whole vocabulary (all 14 structs, by pointer and by value, IRIs, links, item lists and IRI lists, id-less embedded objects, 1-3 language values incl. repeated language references, nesting depth <= 2): (1) every item against itself (two independently built copies) -> true; (2) every nil kind against every nil kind -> true, and against non-nil items in both orders -> false; (3) a copy with a different id (host, path or query) or a type differing in more than case -> false, a type differing only in case -> true; (4) for every property of the object core other than media type and source, and actor/object/target/result/origin/instrument of activities: a copy with that property changed to a different value (both orders -> false) or removed / added (the order whose second argument carries the value -> false); (4b) systematically, on minimal values: every struct x every type name of its family (incl. the generic names Object, Activity, Actor, ...) x every listed property, changed and one-sided; (5) IRI vs object of the same id, value vs pointer, random unrelated pairs: correspondence only."
+		c.Rule = "items generated type-directed over the whole vocabulary (all 14 structs, by pointer and by value, IRIs, links, item lists and IRI lists, id-less embedded objects, 1-3 language values incl. repeated language references, nesting depth <= 2): (1) every item against itself (two independently built copies) -> true; (2) every nil kind against every nil kind -> true, and against non-nil items in both orders -> false; (3) a copy with a different id (host, path or query) or a type differing in more than case -> false, a type differing only in case -> true; (4) for every property of the object core other than media type and source, and actor/object/target/result/origin/instrument of activities: a copy with that property changed to a different value (both orders -> false) or removed / added (the order whose second argument carries the value -> false); (4b) systematically, on minimal values: every struct x every type name of its family (incl. the generic names Object, Activity, Actor, ...) x every listed property, changed and one-sided, a quarter of them with the type name in lower case and a quarter in upper case on both sides; (5) IRI vs object of the same id, value vs pointer, random unrelated pairs: correspondence only."
 		cfg := &GenCfg{MaxDepth: 2, Density: 18, ValueNodes: true, Links: true, EmptyTypes: true, MultiLang: true, RepeatLang: true, Zones: true}
 		n := c.N(700, 15000)
 		for i := 0; i < n; i++ {
@@ -211,6 +211,11 @@ func init() {
 							f[field] = v
 						}
 						return T{"t": goType, "ptr": true, "f": f}
+					}
+					if (ti+pi)%4 == 1 {
+						tn = strings.ToLower(tn) // a type in a non-canonical spelling, the same on both sides
+					} else if (ti+pi)%4 == 3 {
+						tn = strings.ToUpper(tn)
 					}
 					x, y, z := mk(v1), mk(v2), mk(nil)
 					c09Emit(c, c09Case{A: x, B: y, Want: "false", Why: "systematic/changed " + field})
